@@ -23,6 +23,9 @@ pub enum Delay {
     /// per-attempt table (attempt 1.. ) in ms; entries may be zero (only the rules that hold
     /// whatever a zero entry means are checked then)
     Table(Vec<u64>),
+    /// a delay function whose answers change at `switch_ms` (e.g. one that follows a latency
+    /// percentile): what counts is what it says when it is asked
+    Phased { before: Vec<u64>, after: Vec<u64>, switch_ms: u64 },
 }
 
 #[derive(Clone, Debug, Serialize, Deserialize, PartialEq)]
@@ -94,9 +97,22 @@ fn gen_unbounded(rng: &mut Rng) -> Scn {
     Scn { max: u32::MAX, delay, calls, clone_warmup_ms: 0, knobs: SchedKnobs::gen(rng, false, 60), order: rng.below(4) as u8 }
 }
 
+fn gen_phased(rng: &mut Rng) -> Scn {
+    let max = rng.range(2, 4) as u32;
+    let before: Vec<u64> = (0..4).map(|_| *rng.pick(&[5u64, 10, 20])).collect();
+    let after: Vec<u64> = (0..4).map(|_| *rng.pick(&[40u64, 80, 150])).collect();
+    let (before, after) = if rng.chance(1, 2) { (before, after) } else { (after, before) };
+    let slow = |rng: &mut Rng| Behaviour { lat_ms: *rng.pick(&[200u64, 200, 30]), out: if rng.chance(2, 3) { Outcome::Ok } else { Outcome::Err(0) }, yields: 0 };
+    let calls = vec![Call { start_ms: 0, attempts: (0..max).map(|_| slow(rng)).collect() }, Call { start_ms: 500, attempts: (0..max).map(|_| slow(rng)).collect() }];
+    Scn { max, delay: Delay::Phased { before, after, switch_ms: 400 }, calls, clone_warmup_ms: 0, knobs: SchedKnobs::gen(rng, false, 60), order: rng.below(2) as u8 }
+}
+
 pub fn gen(rng: &mut Rng) -> Scn {
     if rng.chance(1, 12) {
         return gen_many(rng);
+    }
+    if rng.chance(1, 14) {
+        return gen_phased(rng);
     }
     if rng.chance(1, 14) {
         return gen_unbounded(rng);
@@ -158,11 +174,12 @@ pub fn valid(s: &Scn) -> bool {
                     Delay::FixedUs(_) => true,
                     Delay::Immediate => false,
                     Delay::Table(t) => t.iter().all(|d| *d >= 1),
+                    Delay::Phased { .. } => false,
                 }))
         && !s.calls.is_empty()
         && s.calls.len() <= 4
         && s.calls.iter().all(|c| {
-            c.start_ms <= 100
+            c.start_ms <= 600
                 && (unbounded || c.attempts.len() == s.max as usize)
                 && c.attempts.iter().all(|b| b.lat_ms <= 200 && b.yields <= 4 && matches!(b.out, Outcome::Ok | Outcome::Err(0) | Outcome::Err(1)))
         })
@@ -171,6 +188,7 @@ pub fn valid(s: &Scn) -> bool {
             Delay::FixedUs(d) => *d >= 1 && *d < 1000,
             Delay::Immediate => true,
             Delay::Table(t) => t.len() >= 4 && t.len() <= 6 && t.iter().all(|d| *d <= 100),
+            Delay::Phased { before, after, switch_ms } => before.len() == 4 && after.len() == 4 && before.iter().chain(after.iter()).all(|d| *d >= 1 && *d <= 200) && *switch_ms <= 1000 && s.knobs.jumps.is_empty() && s.clone_warmup_ms == 0,
         }
         && s.clone_warmup_ms <= 500
         && s.order <= 3
@@ -189,6 +207,8 @@ fn delay_for(d: &Delay, attempt: usize) -> u64 {
         Delay::Fixed(x) => *x,
         Delay::Immediate => 0,
         Delay::Table(t) => t[(attempt - 1).min(t.len() - 1)],
+        // (callers of this function handle Phased themselves)
+        Delay::Phased { before, after, .. } => before[(attempt - 1).min(3)].min(after[(attempt - 1).min(3)]),
     })
     .saturating_mul(1000)
 }
@@ -211,7 +231,7 @@ pub fn run(s: &Scn, ctx: &mut RunCtx) -> RunOutput {
             // decoy, overwritten below
             b = match &scn.delay {
                 Delay::Immediate | Delay::Fixed(0) => b.delay(Duration::from_millis(3)).max_hedged_attempts(count(scn.max).saturating_add(1)),
-                Delay::Table(_) => b.no_delay(),
+                Delay::Table(_) | Delay::Phased { .. } => b.no_delay(),
                 _ => b.delay_fn(|_| Duration::ZERO).max_hedged_attempts(1),
             };
         }
@@ -225,6 +245,13 @@ pub fn run(s: &Scn, ctx: &mut RunCtx) -> RunOutput {
             Delay::Table(t) => {
                 let t = t.clone();
                 b.delay_fn(move |a| Duration::from_millis(t[(a.max(1) - 1).min(t.len() - 1)]))
+            }
+            Delay::Phased { before, after, switch_ms } => {
+                let (before, after, switch_us) = (before.clone(), after.clone(), *switch_ms * 1000);
+                b.delay_fn(move |a| {
+                    let t = if world::now_us() < switch_us { &before } else { &after };
+                    Duration::from_millis(t[(a.max(1) - 1).min(3)])
+                })
             }
         };
         if scn.order & 1 != 0 {
@@ -288,7 +315,21 @@ pub fn run(s: &Scn, ctx: &mut RunCtx) -> RunOutput {
                 // a delay function whose first answer is zero selects parallel mode (everything
                 // at once); whether its later answers still count is not documented
             } else {
-                let d = delay_for(&s.delay, j);
+                let d = match &s.delay {
+                    // asked some time between the start of the call and the start of this attempt
+                    Delay::Phased { before, after, switch_ms } => {
+                        let sw = *switch_ms * 1000;
+                        let (b, a) = (before[(j - 1).min(3)] * 1000, after[(j - 1).min(3)] * 1000);
+                        if mine[j].start_us < sw {
+                            b
+                        } else if t.first_poll_us >= sw {
+                            a
+                        } else {
+                            a.min(b)
+                        }
+                    }
+                    other => delay_for(other, j),
+                };
                 if mine[j].start_us < mine[j - 1].start_us.saturating_add(d) {
                     world::violation("C12.spacing", "too_early", format!("call {}: attempt {} started at {}us, previous at {}us, configured delay {}us", i, j, mine[j].start_us, mine[j - 1].start_us, d));
                 }
